@@ -10,7 +10,16 @@ RULE = ("entries whose field keys are drawn from {a, A, b, B, ab, Ab, c} in ever
         "the same with the entry an instance of a user subclass of Entry (trivial subclass, and a subclass whose `fields` "
         "getter hands out a copy of the held list: all key lists up to 3 fields quick / 4 thorough x the three middlewares, "
         "longer ones, compositions, frames and all custom orders sampled; judged on the returned entry's `.fields`, encoded "
-        "for the model like a plain Entry of the same content). "
+        "for the model like a plain Entry of the same content); "
+        "HAND-BUILT entries that hold the SAME key two or three times (the parser never produces them) with arbitrary Field "
+        "attributes: start_line ascending / descending / equal / None / mixed against the list order (all assignments of "
+        "{None, 1, 2} for 2-3 fields over {a, A, b}, longer ones sampled), values equal / different / mixed, the SAME Field "
+        "object at two or three positions, Field subclasses with odd ordering / equality / hash (trivial, __lt__ by value, "
+        "total order by start_line, __lt__ raising, __eq__ always True, __eq__ always False, hashable by key), alone and mixed "
+        "in one entry, through alphabetical, custom, normalise and their compositions (sort then normalise, normalise then "
+        "sort, ...); judged on (key, value, type of value, start_line[, class of the Field for the two sorts]) in LIST order - "
+        "a tie keeps the order of entry.fields, the last occurrence is the last in entry.fields, whatever start_line says; "
+        "encoded for the model like plain Fields of the same content. "
         "distinct = distinct (key list, step list, context, mode, entry class); non-trivial = the entry has at least two fields")
 TRUSTED = ["oracle instance: str.lower restricted to ASCII (inputs with other cased letters are compared by the Python oracle only)",
            "CPython's sorted() is a stable sort (Base/StableSort.v proves the stable sorted permutation unique, so any such "
@@ -135,7 +144,150 @@ def generate(rng, tier):
         r = rng.random()
         step = [0] if r < 0.3 else [2] if r < 0.6 else [1, rng.randint(0, 1), rng.randint(0, 1), rng.sample(UNI_NAMES, rng.randint(0, 4))]
         add("userclass-unicode", names, [step], 0, bool(rng.getrandbits(1)), rng.choice([1, 2]))
+    # ---- hand-built entries with repeated keys and arbitrary Field attributes (appended: the streams above keep their inputs)
+    generate_handbuilt(rng, tier, cases)
     return cases
+
+
+# ------------------------------------------------------------------------- hand-built entries: repeated keys, odd Fields
+# A case of these streams carries "fx": one [start_line | None, value index, slot, field class] per field, parallel to
+# "names".  Fields with the same slot >= 0 are ONE Field object placed at several positions of entry.fields (their specs
+# agree); slot -1 = an object of its own.  Field classes: index into FIELD_CLS_NAMES (built in field_classes()).
+FIELD_CLS_NAMES = ["Field", "SubField", "LtByValueField", "OrdByLineField", "LtRaisesField", "EqTrueField", "EqFalseField",
+                   "KeyHashField"]
+HB_KEYS = ["a", "A", "b"]
+HB_LINES = [None, 0, 1, 2, 3, 5, 8, 13]
+HB_STEP_KINDS = ["alpha", "normalise", "custom", "alpha>normalise", "normalise>alpha", "custom>normalise", "normalise>custom",
+                 "alpha>custom", "custom>alpha", "three"]
+
+
+def hb_steps(rng, kind):
+    def cust():
+        return custom_step(rng, ORDER_NAMES if rng.random() < 0.5 else ORDER_NAMES_2)
+    if kind == "three":
+        return [random_step(rng) for _ in range(3)]
+    return [{"alpha": [0], "normalise": [2]}.get(k) or cust() for k in kind.split(">")]
+
+
+def hb_lines(rng, n, pattern):
+    if pattern == "none":
+        return [None] * n
+    if pattern == "equal":
+        return [rng.choice(HB_LINES[1:])] * n
+    if pattern in ("asc", "desc"):
+        # strictly monotonic, gaps allowed, 0 allowed as the smallest
+        xs = sorted(rng.sample(range(0, 3 * n + 2), n))
+        return xs if pattern == "asc" else xs[::-1]
+    if pattern == "none-first":                       # a hand-made field in front of parsed ones, and the like
+        k = rng.randint(1, max(1, n - 1))
+        xs = [None] * k + sorted(rng.sample(range(0, 3 * n + 2), n - k), reverse=rng.random() < 0.5)
+        if rng.random() < 0.3:
+            xs.reverse()
+        return xs
+    return [rng.choice(HB_LINES) for _ in range(n)]  # mixed: repeats, None and 0 among them
+
+
+def hb_values(rng, n, names, pattern):
+    if pattern == "different":
+        return list(range(n))
+    if pattern == "equal":
+        return [rng.randint(0, 5)] * n
+    if pattern == "equal-per-key":                    # the occurrences of one key hold equal values
+        base = {}
+        return [base.setdefault(k, len(base)) for k in names]
+    return [rng.randint(0, 3) for _ in range(n)]     # mixed
+
+
+def hb_names(rng, n):
+    """n >= 2 keys with at least one exact repeat (2 or 3 times, sometimes two keys repeated), the rest from NAMES."""
+    pool = NAMES if rng.random() < 0.7 else HB_KEYS
+    names = []
+    k1 = rng.choice(pool)
+    names += [k1] * min(n, rng.choice([2, 2, 3]))
+    if n - len(names) >= 2 and rng.random() < 0.4:
+        names += [rng.choice(pool)] * 2
+    while len(names) < n:
+        # case variants of the repeated key are frequent: they collide for normalise / custom, not for alphabetical
+        names.append(k1.swapcase() if rng.random() < 0.3 else rng.choice(pool))
+    rng.shuffle(names)
+    return names
+
+
+def hb_share(rng, names, fx, p):
+    """With probability p make the occurrences of one repeated key the SAME object (2 or 3 positions)."""
+    if rng.random() >= p:
+        return
+    groups = {}
+    for i, k in enumerate(names):
+        groups.setdefault(k, []).append(i)
+    reps = [g for g in groups.values() if len(g) >= 2]
+    rng.shuffle(reps)
+    for slot, g in enumerate(reps[:rng.choice([1, 1, 2])]):
+        pos = g if rng.random() < 0.5 else rng.sample(g, 2)
+        first = min(pos)
+        for i in pos:
+            fx[i] = [fx[first][0], fx[first][1], slot, fx[first][3]]
+
+
+def generate_handbuilt(rng, tier, cases):
+    quick = tier == "quick"
+
+    def add(stream, names, fx, steps, ctx=0, inplace=True, cls=0):
+        inp = {"names": list(names), "steps": steps, "ctx": ctx, "inplace": inplace, "fx": [list(x) for x in fx]}
+        if cls:
+            inp["cls"] = cls
+        cases.append({"stream": stream, "input": inp})
+
+    # (1) every key list of 2-3 fields over {a, A, b} with an exact repeat x every assignment of start lines from
+    #     {None, 1, 2} (ascending, descending, equal, None, mixed are all among them) x values equal / different
+    turn = 0
+    for n in (2, 3):
+        for names in itertools.product(HB_KEYS, repeat=n):
+            if len(set(names)) == n:
+                continue
+            for lines in itertools.product([None, 1, 2], repeat=n):
+                for vpat in ("different", "equal"):
+                    vals = hb_values(rng, n, names, vpat)
+                    fx = [[lines[i], vals[i], -1, 0] for i in range(n)]
+                    if n == 2 or not quick:
+                        kinds = HB_STEP_KINDS[:5]
+                    else:
+                        # one step list that sorts alphabetically (in turn: alone, then normalise, after normalise) and
+                        # every second time one that does not
+                        kinds = [("alpha", "alpha>normalise", "normalise>alpha")[turn % 3]]
+                        if turn % 2:
+                            kinds.append(("normalise", "custom", "custom>normalise", "normalise>custom")[(turn // 2) % 4])
+                        turn += 1
+                    for kind in kinds:
+                        add("handbuilt-exhaustive", names, fx, hb_steps(rng, kind), 0, bool(rng.getrandbits(1)))
+    # (2) longer plain-Field entries, every pattern sampled, all step lists
+    line_pats = ["asc", "desc", "equal", "none", "mixed", "mixed", "none-first"]
+    val_pats = ["different", "different", "equal", "equal-per-key", "mixed"]
+    for _ in range(1300 if quick else 26000):
+        n = rng.randint(2, 8)
+        names = hb_names(rng, n)
+        lines = hb_lines(rng, n, rng.choice(line_pats))
+        vals = hb_values(rng, n, names, rng.choice(val_pats))
+        fx = [[lines[i], vals[i], -1, 0] for i in range(n)]
+        hb_share(rng, names, fx, 0.25)
+        add("handbuilt-random", names, fx, hb_steps(rng, rng.choice(HB_STEP_KINDS)), rng.choice([0, 0, 0, 0, 1, 2]),
+            bool(rng.getrandbits(1)), rng.choice([0, 0, 0, 0, 1, 2]))
+    # (3) Field subclasses with odd ordering / equality / hash: one class for the whole entry, or mixed
+    k = 0
+    for _ in range(1300 if quick else 26000):
+        n = rng.randint(2, 6)
+        names = hb_names(rng, n)
+        lines = hb_lines(rng, n, rng.choice(line_pats))
+        vals = hb_values(rng, n, names, rng.choice(val_pats))
+        if rng.random() < 0.7:
+            fcs = [1 + k % (len(FIELD_CLS_NAMES) - 1)] * n           # every class in turn
+            k += 1
+        else:
+            fcs = [rng.randrange(len(FIELD_CLS_NAMES)) for _ in range(n)]
+        fx = [[lines[i], vals[i], -1, fcs[i]] for i in range(n)]
+        hb_share(rng, names, fx, 0.3)
+        add("handbuilt-fieldclass", names, fx, hb_steps(rng, rng.choice(HB_STEP_KINDS)), rng.choice([0, 0, 0, 0, 1, 2]),
+            bool(rng.getrandbits(1)), rng.choice([0, 0, 0, 0, 1, 2]))
 
 
 def shrink(case):
@@ -147,8 +299,26 @@ def shrink(case):
         d.update(kw)
         out.append({"stream": "shrink", "input": d})
     names, steps = inp["names"], inp["steps"]
+    fx = inp.get("fx")
     for i in range(len(names)):
-        mk(names=names[:i] + names[i + 1:])
+        if fx is None:
+            mk(names=names[:i] + names[i + 1:])
+        else:
+            mk(names=names[:i] + names[i + 1:], fx=fx[:i] + fx[i + 1:])
+    if fx is not None:
+        if any(x[3] for x in fx):
+            mk(fx=[[x[0], x[1], x[2], 0] for x in fx])                # plain Fields
+        if any(x[2] >= 0 for x in fx):
+            mk(fx=[[x[0], x[1], -1, x[3]] for x in fx])               # every field an object of its own
+        if len(set(x[1] for x in fx)) > 1:
+            mk(fx=[[x[0], 0, x[2], x[3]] for x in fx])                # equal values
+        if [x[0] for x in fx] != list(range(len(fx))):
+            # the start lines of the older streams; then the hand-built part can go altogether
+            mk(fx=[[i, x[1], x[2], x[3]] for i, x in enumerate(fx)])
+        elif all(x[2] < 0 and x[3] == 0 for x in fx) and [x[1] for x in fx] == list(range(len(fx))):
+            d = dict(inp)
+            del d["fx"]
+            out.append({"stream": "shrink", "input": d})
     if len(steps) > 1:
         for i in range(len(steps)):
             mk(steps=steps[:i] + steps[i + 1:])
@@ -175,10 +345,107 @@ def field_value(i):
     return ["x%d" % i, i]
 
 
+_FIELD_CLASSES = []
+
+
+def field_classes():
+    """Field and user subclasses of it (built from the tree under test; order = FIELD_CLS_NAMES).  None of them touches
+    anything but the public attributes key / value / start_line.  The property speaks of keys and of the order of
+    entry.fields only: whatever these classes answer to <, ==, hash() must not show in the result."""
+    if _FIELD_CLASSES:
+        return _FIELD_CLASSES
+    from bibtexparser.model import Field
+    from props import userclasses
+    uc = userclasses.get()
+
+    class LtByValueField(Field):
+        # "smaller" = the text of the value is GREATER: with values numbered by position this is the reversed list order
+        def __lt__(self, other):
+            return str(self.value) > str(getattr(other, "value", ""))
+
+    def _line(f):
+        ln = getattr(f, "start_line", None)
+        return -1 if ln is None else ln
+
+    class OrdByLineField(Field):
+        # a total order by start_line, descending, fields without a line first
+        def __lt__(self, other):
+            return _line(self) > _line(other)
+
+        def __gt__(self, other):
+            return _line(self) < _line(other)
+
+        def __le__(self, other):
+            return _line(self) >= _line(other)
+
+        def __ge__(self, other):
+            return _line(self) <= _line(other)
+
+    class LtRaisesField(Field):
+        def __lt__(self, other):
+            raise TypeError("these fields are not ordered")
+
+        __gt__ = __le__ = __ge__ = __lt__
+
+    class EqTrueField(Field):
+        def __eq__(self, other):
+            return True
+
+        def __ne__(self, other):
+            return False
+
+        def __hash__(self):
+            return 0
+
+    class EqFalseField(Field):
+        def __eq__(self, other):
+            return False
+
+        def __ne__(self, other):
+            return True
+
+        __hash__ = object.__hash__
+
+    class KeyHashField(Field):
+        # hashable (Field itself is not), equal whenever the keys are equal
+        def __eq__(self, other):
+            return getattr(other, "key", None) == self.key
+
+        def __hash__(self):
+            return hash(self.key)
+
+    _FIELD_CLASSES.extend([Field, uc.SubField, LtByValueField, OrdByLineField, LtRaisesField, EqTrueField, EqFalseField,
+                           KeyHashField])
+    assert [c.__name__ for c in _FIELD_CLASSES] == FIELD_CLS_NAMES
+    return _FIELD_CLASSES
+
+
+def build_fields(inp):
+    from bibtexparser.model import Field
+    fx = inp.get("fx")
+    if fx is None:
+        return [Field(n, field_value(i), i) for i, n in enumerate(inp["names"])]
+    if len(fx) != len(inp["names"]):
+        raise AssertionError("harness: fx and names differ in length")
+    classes = field_classes()
+    slots, fields = {}, []
+    for n, (line, v, slot, fc) in zip(inp["names"], fx):
+        if slot >= 0 and slot in slots:
+            f = slots[slot]
+            if (f.key, f.start_line, type(f)) != (n, line, classes[fc]):     # the generator's promise
+                raise AssertionError("harness: positions of one slot disagree")
+        else:
+            f = classes[fc](n, field_value(v), line)
+            if slot >= 0:
+                slots[slot] = f
+        fields.append(f)
+    return fields
+
+
 def build_blocks(inp):
     from bibtexparser.model import (Entry, Field, String, Preamble, ExplicitComment, ImplicitComment, ParsingFailedBlock,
                                     DuplicateFieldKeyBlock, MiddlewareErrorBlock)
-    fields = [Field(n, field_value(i), i) for i, n in enumerate(inp["names"])]
+    fields = build_fields(inp)
     entry = Entry("article", "k1", fields, start_line=5, raw="@article{k1, ...}")
     ctx = inp["ctx"]
     cls = inp.get("cls", 0)
@@ -247,7 +514,8 @@ def snapshot(lib):
     for b in lib.blocks:
         if is_entry(b):
             snap.append(("Entry", b.entry_type, b.key, b.start_line, b.raw,
-                         [(f.key, f.value, f.start_line, type(f.value).__name__, json.dumps(f.value)) for f in b.fields]))
+                         [(f.key, f.value, f.start_line, type(f.value).__name__, json.dumps(f.value), type(f).__name__)
+                          for f in b.fields]))
         else:
             snap.append((type(b).__name__, json.dumps(enc_b(b))))
     return snap
@@ -255,6 +523,11 @@ def snapshot(lib):
 
 def trip(f):
     return (f[0], f[4], f[2])
+
+
+def srt(f):
+    """What a sort must carry for each field: key, value (text and type), start_line, class of the Field object."""
+    return (f[0], f[4], f[3], repr(f[2]), f[5])
 
 
 def check_step(step, before, after):
@@ -272,22 +545,24 @@ def check_step(step, before, after):
             return "entry type/key/start_line/raw changed: %r -> %r" % (b0[1:5], b1[1:5])
         f0, f1 = b0[5], b1[5]
         if step[0] in (0, 1):
-            if sorted(map(trip, f0)) != sorted(map(trip, f1)):
-                return "fields are not a permutation: %r -> %r" % ([x[:3] for x in f0], [x[:3] for x in f1])
-            idx = {x[2]: i for i, x in enumerate(f0)}          # start lines are unique per entry: identity of a field
+            if sorted(map(srt, f0)) != sorted(map(srt, f1)):
+                return "fields are not a permutation: %r -> %r" % ([x[:3] + x[5:] for x in f0], [x[:3] + x[5:] for x in f1])
             if step[0] == 0:
                 for x, y in zip(f1, f1[1:]):
                     if x[0] > y[0]:
                         return "keys not ascending: %r" % [z[0] for z in f1]
-                    if x[0] == y[0] and idx[x[2]] > idx[y[2]]:
-                        return "equal keys lost source order: %r" % [z[:3] for z in f1]
+                # source order = the order of entry.fields before the sort (NOT start_line, which a hand-built entry may
+                # carry in any order, repeated or not at all): per key, ascending, its fields as they stood in the list
+                expect = [x for k in sorted(set(z[0] for z in f0)) for x in f0 if x[0] == k]
+                if [srt(x) for x in expect] != [srt(x) for x in f1]:
+                    return "equal keys lost source order: got %r, expected %r" % ([z[:3] for z in f1], [z[:3] for z in expect])
             else:
                 cs, order = step[1], step[3]
                 folded = list(dict.fromkeys(fold(k, cs) for k in order))
                 expect = [x for k in folded for x in f0 if fold(x[0], cs) == k] + [x for x in f0 if fold(x[0], cs) not in folded]
-                if [trip(x) for x in expect] != [trip(x) for x in f1]:
+                if [srt(x) for x in expect] != [srt(x) for x in f1]:
                     return "custom order %r (case_sensitive=%s): got %r, expected %r" % (
-                        order, bool(cs), [z[0] for z in f1], [z[0] for z in expect])
+                        order, bool(cs), [z[:3] for z in f1], [z[:3] for z in expect])
         else:
             keys = [x[0] for x in f1]
             if any(k != k.lower() for k in keys):
@@ -394,4 +669,46 @@ def impl(case):
     rec["tags"].append("fields=%d" % len(inp["names"]))
     lows = [n.lower() for n in inp["names"]]
     rec["tags"].append("collision" if len(set(lows)) != len(lows) else "no-collision")
+    if inp.get("fx") is not None:
+        rec["tags"].extend(hb_tags(inp))
     return rec
+
+
+def hb_tags(inp):
+    """The kinds of a hand-built case, measured on the case itself (so that shrunk and replayed cases are labelled too)."""
+    names, fx, steps = inp["names"], inp["fx"], inp["steps"]
+    tags = []
+    rep = max([names.count(k) for k in names] or [0])
+    tags.append("handbuilt/same-key=%s" % ("no" if rep < 2 else "x2" if rep == 2 else "x3+"))
+    lines = [x[0] for x in fx]
+    some = [x for x in lines if x is not None]
+    if not some:
+        pat = "none"
+    elif len(some) < len(lines):
+        pat = "mixed-with-none"
+    elif len(set(some)) == 1 and len(some) > 1:
+        pat = "equal"
+    elif all(x < y for x, y in zip(some, some[1:])):
+        pat = "ascending"
+    elif all(x > y for x, y in zip(some, some[1:])):
+        pat = "descending"
+    else:
+        pat = "mixed"
+    tags.append("handbuilt/start_lines=" + pat)
+    # the situation of the repeated keys in particular: do their start lines agree with the list order?
+    against = False
+    for k in set(names):
+        ls = [x[0] for n, x in zip(names, fx) if n == k]
+        key = [(x is None, x or 0) for x in ls]
+        if key != sorted(key):
+            against = True
+    tags.append("handbuilt/start_lines-of-a-repeated-key-against-list-order=%s" % ("yes" if against else "no"))
+    vals = [x[1] for x in fx]
+    tags.append("handbuilt/values=%s" % ("equal" if len(set(vals)) == 1 else "different" if len(set(vals)) == len(vals) else "mixed"))
+    slots = [x[2] for x in fx if x[2] >= 0]
+    if slots:
+        tags.append("handbuilt/same-object-at-%s-positions" % ("2" if max(slots.count(z) for z in slots) == 2 else "3+"))
+    fcs = sorted(set(x[3] for x in fx))
+    tags.append("handbuilt/field-class=%s" % (FIELD_CLS_NAMES[fcs[0]] if len(fcs) == 1 else "mixed"))
+    tags.append("handbuilt/steps=" + (">".join(MW_NAMES[s[0]] for s in steps) if len(steps) < 3 else "three or more"))
+    return tags
